@@ -22,7 +22,7 @@ TIMEOUT = {"quick": 1200, "thorough": 7200}
 def generate(tier, seed):
     cases = [{"kind": "shipped-pairs", "seed": "%d:shipped" % seed, "cost": 5},
              {"kind": "shipped-scalars", "seed": "%d:scalars" % seed, "cost": 2}]
-    n = 160 if tier == "quick" else 6000
+    n = 600 if tier == "quick" else 6000
     for k in range(n):
         cases.append({"kind": "generated", "seed": "%d:g:%d" % (seed, k), "cost": 1})
     n = 12 if tier == "quick" else 120
